@@ -705,6 +705,10 @@ def _next_generic(m, st, callee, args, t):
             return h(m, st, ref)
     if isinstance(it, Opq) and it.kind == "slice-iter":
         return _slice_iter_next(m, st, callee, args, t)
+    if isinstance(it, Adt) and it.ty.startswith("core::ops::range::RangeInclusive") and len(it.fields) == 3:
+        return _ri_next(m, st, callee, [ref], t) if all(isinstance(x, I) for x in it.fields) else None
+    if isinstance(it, Adt) and it.ty.startswith("core::ops::range::Range") and len(it.fields) == 2:
+        return _r_next(m, st, callee, [ref], t)
     if isinstance(it, Opq) and it.kind == "fsplit":
         return _split_next(m, st, callee, args, t)
     if isinstance(it, Opq) and it.kind == "filter":
@@ -1043,6 +1047,14 @@ def _filter_next(m, st, callee, args, t):
     if isinstance(it, Opq) and it.kind == "filter" and isinstance(ref, Ref):
         return (INLINE, m.prog.bodies["pv::synth::filter_next"], [Ref(m._sub(ref.loc, ("opq", 0))), Ref(m._sub(ref.loc, ("opq", 1)))], None)
     return None
+
+
+@model("core::str::<impl str>::strip_prefix")
+def _strip_prefix(m, st, callee, args, t):
+    h = getattr(m.world, "str_strip_prefix", None)
+    if h is None:
+        return None
+    return h(m, st, _content(m, st, args[0]), args[1])
 
 
 @model("core::str::<impl str>::split_once", "core::str::<impl str>::rsplit_once")
